@@ -11,13 +11,45 @@ VERUS = {
     # rational/src/convert.rs: Repr::{to_f32, to_f64} (two known-finding regions excluded by precondition);
     # base/src/approx.rs Approximation::and_then; base/src/sign.rs Sign::{mul, neg, cmp}
     'ratio_to_float': {'file': 'ratio_to_float.rs', 'w32': False},
+    # float/src/convert.rs macro impl_from_float_for_fbig: TryFrom<f32/f64> for Repr<2> and for FBig<R, 2> (rule E3b)
+    'float_from_prim': {'file': 'float_from_prim.rs', 'w32': False},
 }
 
+_LOW3 = '3 words: low and middle word fully symbolic (2^128, shared by the sweep) x concrete top word '
+_TH = {'tier': 'thorough'}
+
 KANI = {
+    # bounded companion of the Verus unit int_to_float on the real code: UBig/IBig::to_f32/to_f64 for heap integers.
+    # Top word and sign are concrete per case (a symbolic top word / sign makes the shift-surviving length or the
+    # capacity symbolic: CBMC runs out of memory); all lower words are fully symbolic.  Quick tier = one slice of every
+    # family (each catches the sticky-bit mutation); the remaining slices are 'thorough'.
+    'int_to_float_k': {
+        'package': 'dashu-int', 'target': 'integer/src/convert.rs', 'file': 'int_to_float_k.rs',
+        'harnesses': {
+            'vk_int_to_float_k_ubig_f64_w3_pow2_a': {'kind': 'bounded', 'bound': _LOW3 + '2^k, k in 0..=15'},
+            'vk_int_to_float_k_ubig_f64_w3_pow2_b': dict(_TH, kind='bounded', bound=_LOW3 + '2^k, k in 16..=31'),
+            'vk_int_to_float_k_ubig_f64_w3_pow2_c': dict(_TH, kind='bounded', bound=_LOW3 + '2^k, k in 32..=47'),
+            'vk_int_to_float_k_ubig_f64_w3_pow2_d': dict(_TH, kind='bounded', bound=_LOW3 + '2^k, k in 48..=63'),
+            'vk_int_to_float_k_ubig_f64_w3_ones_a': dict(_TH, kind='bounded', bound=_LOW3 + '2^(k+1)-1, k in 0..=15'),
+            'vk_int_to_float_k_ubig_f64_w3_ones_b': dict(_TH, kind='bounded', bound=_LOW3 + '2^(k+1)-1, k in 16..=31'),
+            'vk_int_to_float_k_ubig_f64_w3_ones_c': dict(_TH, kind='bounded', bound=_LOW3 + '2^(k+1)-1, k in 32..=47'),
+            'vk_int_to_float_k_ubig_f64_w3_ones_d': dict(_TH, kind='bounded', bound=_LOW3 + '2^(k+1)-1, k in 48..=63'),
+            'vk_int_to_float_k_ubig_f64_w3_tie_even': {'kind': 'bounded', 'bound': _LOW3 + '2^k + 2^(k-53), k in 53..=63'},
+            'vk_int_to_float_k_ubig_f64_w3_tie_odd': {'kind': 'bounded', 'bound': _LOW3 + '2^k + 3*2^(k-53), k in 53..=63'},
+            'vk_int_to_float_k_ubig_f64_w3_fixed': {'kind': 'bounded', 'bound': _LOW3 + 'from 6 fixed patterns'},
+            'vk_int_to_float_k_ibig_f64_w3': {'kind': 'bounded', 'bound': _LOW3 + 'from 8 values x both signs'},
+            'vk_int_to_float_k_ubig_f32_w3': {'kind': 'bounded', 'bound': _LOW3 + '2^k (k = 0,3,..,63), u64::MAX'},
+            'vk_int_to_float_k_ibig_f32_w3': {'kind': 'bounded', 'bound': _LOW3 + 'from 8 values x both signs'},
+            'vk_int_to_float_k_ubig_f64_w4': dict(_TH, kind='bounded', bound='4 words: three lower words fully symbolic x concrete top word 2^k (k = 7,15,..,63), 1, u64::MAX'),
+            'vk_int_to_float_k_ref_f64_w16': dict(_TH, kind='bounded', bound='16 words via TypedReprRef::RefLarge: 15 lower words fully symbolic x top word in {1, 2^63, u64::MAX} (incl. overflow to +inf)'),
+            'vk_int_to_float_k_ref_w17_inf': {'kind': 'bounded', 'bound': '17 words via TypedReprRef::RefLarge: 16 lower words fully symbolic x top word in {1, 2^63, u64::MAX}; to_f64 and to_f32'},
+        },
+    },
 }
 
 PROP_UNITS = {
-    'C06': {'verus': ['int_to_float', 'float_to_f', 'float_conv', 'ratio_to_float']},
-    'C08': {'verus': ['float_conv']},
+    'C06': {'verus': ['int_to_float', 'float_to_f', 'float_conv', 'ratio_to_float', 'float_from_prim'],
+            'kani': ['int_to_float_k']},
+    'C08': {'verus': ['float_conv', 'float_from_prim']},
     'C10': {'verus': ['float_conv']},
 }
